@@ -262,6 +262,8 @@ type xcfg struct {
 	Prefix []string
 	// MaxDepth bounds the BFS depth (0 = to fixpoint).
 	MaxDepth int
+	// RateLimit > 0 sets config.MaxInMemLogSize (raft's in-memory log rate limiter)
+	RateLimit uint64
 	// WarmLeader elects replica 1 as leader with a fixed prefix before the search.
 	WarmLeader bool
 	// Fifo delivers messages of one (from,to) channel in send order (reordering
@@ -384,7 +386,7 @@ func newCluster(cfg *xcfg) *cluster {
 		r.ssr = &memSnapshotter{r: r, images: map[uint64]*ssImage{}}
 		r.cfg = config.Config{ShardID: shardID, ReplicaID: id, ElectionRTT: 10, HeartbeatRTT: 2,
 			CheckQuorum: cfg.CheckQuorum, PreVote: cfg.PreVote, OrderedConfigChange: cfg.Ordered,
-			IsNonVoting: r.kind == kNonVoting, IsWitness: r.kind == kWitness}
+			IsNonVoting: r.kind == kNonVoting, IsWitness: r.kind == kWitness, MaxInMemLogSize: cfg.RateLimit}
 		c.reps = append(c.reps, r)
 		c.byID[id] = r
 		joiner := false
